@@ -1,5 +1,6 @@
 import Proofs.ConfModel
 import Proofs.Polar
+import Proofs.SigmaForm
 
 /-! # C13 — rotor recovery in g3c: the algebraic core
 
@@ -63,6 +64,42 @@ theorem square_root_of_rotor (R Rrev q : A) (s t n κ : ℚ) (hR : R * Rrev = 1)
     (hn : n * n = s * s - t) (hκ : κ * κ * (2 * (s + n) * (n * n)) = 1) :
     (κ • (((s + n) • (1 : A) - q) * (1 + R))) * (κ • (((s + n) • (1 : A) - q) * (1 + R))) = R :=
   Polar.sqrt_rotor R Rrev q s t n κ hR hR' hσ hq hn hκ
+
+
+/-! ### g3c: the hypotheses of the positive-root branch hold for every pair of same-grade blades of Cl(4,1)
+
+`σ = C ~C` is its scalar part plus its grade-4 part, and the grade-4 part (a pseudovector of the 5-dimensional algebra) squares to a
+scalar — for any signature `sig` on five generators, any grade `g`, any `X1`, `X2` homogeneous of grade `g` with `X1² = X2² = γ = ±1`. -/
+section G3c
+variable {sig : Nat → ℚ}
+
+theorem sigma_is_scalar_plus_pseudovector (g : Nat) (γ : ℚ) (hγ : γ * γ = 1) (X1 X2 : Cl 5 sig) (h1 : IsHom 5 g X1) (h2 : IsHom 5 g X2)
+    (hs1 : X1 * X1 = γ • (1 : Cl 5 sig)) (hs2 : X2 * X2 = γ • (1 : Cl 5 sig)) :
+    let σ : Cl 5 sig := (1 + γ • (X2 * X1)) * (1 + γ • (X1 * X2))
+    let q : Cl 5 sig := asCl (gpart 5 4 σ)
+    σ = (σ fzero) • (1 : Cl 5 sig) + q ∧ IsHom 5 4 q ∧ q * q = ((q * q) fzero) • (1 : Cl 5 sig) :=
+  sigma_form (fun r hr => by linarith) g γ hγ X1 X2 h1 h2 hs1 hs2
+
+/-- `~(X1 X2) = X2 X1`, so `1 + γ X1 X2` is the reverse of `C = 1 + γ X2 X1` -/
+theorem reverse_of_C (g : Nat) (X1 X2 : CMV 5 ℚ) (h1 : IsHom 5 g X1) (h2 : IsHom 5 g X2) :
+    rev 5 (gmul 5 sig X2 X1) = gmul 5 sig X1 X2 := rev_same_grade_product g X2 X1 h2 h1
+
+/-- **the positive-root branch for g3c objects, without structural hypotheses on `σ`**: with `s = ⟨σ⟩₀`, `t = ⟨q²⟩₀`, `n² = s² − t`,
+    `κ²·2(s+n)n² = 1`, the rotor `R = κ (s + n − q) C` is a unit versor carrying `X1` to `X2` -/
+theorem rotor_between_objects_g3c (g : Nat) (γ : ℚ) (hγ : γ * γ = 1) (X1 X2 : Cl 5 sig) (h1 : IsHom 5 g X1) (h2 : IsHom 5 g X2)
+    (hs1 : X1 * X1 = γ • (1 : Cl 5 sig)) (hs2 : X2 * X2 = γ • (1 : Cl 5 sig)) (n κ : ℚ) :
+    let σ : Cl 5 sig := (1 + γ • (X2 * X1)) * (1 + γ • (X1 * X2))
+    let q : Cl 5 sig := asCl (gpart 5 4 σ)
+    let s : ℚ := σ fzero
+    let t : ℚ := (q * q) fzero
+    n * n = s * s - t → κ * κ * (2 * (s + n) * (n * n)) = 1 →
+    (κ • (((s + n) • (1 : Cl 5 sig) - q) * (1 + γ • (X2 * X1)))) * (κ • ((1 + γ • (X1 * X2)) * ((s + n) • (1 : Cl 5 sig) - q))) = 1
+    ∧ (κ • (((s + n) • (1 : Cl 5 sig) - q) * (1 + γ • (X2 * X1)))) * X1 * (κ • ((1 + γ • (X1 * X2)) * ((s + n) • (1 : Cl 5 sig) - q))) = X2 := by
+  intro σ q s t hn hκ
+  obtain ⟨hσ, _, hq⟩ := sigma_is_scalar_plus_pseudovector g γ hγ X1 X2 h1 h2 hs1 hs2
+  exact rotor_between_objects_positive_root X1 X2 q γ s t n κ hγ hs1 hs2 hσ hq hn hκ
+
+end G3c
 
 /-- non-vacuity: the constraints on the parameters are satisfiable with `t ≠ 0` (`s = 5/4`, `t = 9/16`, `n = 1`, `μ = 9/2`, `κ = √2/3`
     is irrational, so the instance below uses `s = 17/8`, `t = 225/64`, `n = 1`: `μ = 2·(25/8)·1 = 25/4`, `κ = 2/5`) -/
